@@ -85,49 +85,9 @@ theorem displacement_is_imposed (c : Cell K) (pos0 pos1 : Nat → V3 K) (i : Nat
   rw [hu]
   exact hmin t ht
 
-/-! ### rigid slip of a half crystal: slip vector, differential displacement -/
-
-/-- two-valued displacement field: `uA` on the half `side = true`, `uB` on the other. -/
-def twoValued (side : Nat → Bool) (uA uB : V3 K) (j : Nat) : V3 K := if side j then uA else uB
-
-/-- the slip vector is the sum over neighbours of `(u_i - u_j)` whenever no image flips. -/
-theorem slip_fold (c : Cell K) (pos0 pos1 : Nat → V3 K) (u : Nat → V3 K) (i : Nat) :
-    ∀ (nbrs : List Nat) (acc : V3 K),
-      (∀ j ∈ nbrs, c.dv (pos1 i) (pos1 j) = c.dv (pos0 i) (pos0 j) + (u j - u i)) →
-      nbrs.foldl (slipStep c pos0 pos1 i) acc = nbrs.foldl (fun a j => a + (u i - u j)) acc
-  | [], _, _ => rfl
-  | j :: l, acc, h => by
-    simp only [List.foldl_cons]
-    have : slipStep c pos0 pos1 i acc j = acc + (u i - u j) := by
-      simp only [slipStep, h j List.mem_cons_self]
-      ext <;> simp only [sub_x, sub_y, sub_z, add_x, add_y, add_z] <;> ring
-    rw [this]
-    exact slip_fold c pos0 pos1 u i l _ (fun j' hj' => h j' (List.mem_cons_of_mem _ hj'))
-
-/-- the displacement of the *other* half. -/
-def otherHalf (side : Nat → Bool) (uA uB : V3 K) (i : Nat) : V3 K := if side i then uB else uA
-
-theorem rigid_fold (side : Nat → Bool) (uA uB : V3 K) (i : Nat) :
-    ∀ (nbrs : List Nat) (acc : V3 K),
-      nbrs.foldl (fun a j => a + (twoValued side uA uB i - twoValued side uA uB j)) acc
-        = acc + V3.smul ((nbrs.countP (fun j => side j != side i) : Nat) : K)
-            (twoValued side uA uB i - otherHalf side uA uB i)
-  | [], acc => by
-    ext <;> simp
-  | j :: l, acc => by
-    simp only [List.foldl_cons]
-    rw [rigid_fold side uA uB i l, List.countP_cons]
-    by_cases h : side j = side i
-    · have e : twoValued side uA uB j = twoValued side uA uB i := by simp only [twoValued, h]
-      rw [e]
-      ext <;> simp [h]
-    · have hb : (side j != side i) = true := by simpa using h
-      have e : twoValued side uA uB j = otherHalf side uA uB i := by
-        simp only [twoValued, otherHalf]
-        cases hj : side j <;> cases hi : side i <;> simp_all
-      rw [e]
-      ext <;> simp only [hb, if_true, Nat.cast_add, Nat.cast_one, add_x, add_y, add_z, smul_x, smul_y, smul_z,
-        sub_x, sub_y, sub_z] <;> ring
+/-! ### rigid slip of a half crystal: slip vector, differential displacement
+  (`twoValued side uA uB j` = `uA` on the half `side j = true`, `uB` on the other; `otherHalf` the displacement of the
+  half atom `i` is *not* in: both defined in `Proofs/C17_Lemmas.lean`) -/
 
 /-- **slip_rigid.**  For a two-valued (rigid half-crystal) displacement and no image flips on the reference
     neighbour list, the slip vector of atom `i` is the number of its neighbours in the other half times the
@@ -196,107 +156,6 @@ theorem slip_rigid_of_stable (c : Cell K) (pos0 : Nat → V3 K) (nbrs : List Nat
 
 /-! ### disregistry of a rigid slip -/
 
-theorem absK_nonneg (x : K) : 0 ≤ absK x := by
-  unfold absK; split <;> linarith
-
-theorem isclose_self (atol rtol a : K) (ha : 0 ≤ atol) (hr : 0 ≤ rtol) : isclose atol rtol a a = true := by
-  have h0 : absK (a - a) = 0 := by simp [absK]
-  have := absK_nonneg a
-  simp only [isclose, h0, decide_eq_true_eq]
-  positivity
-
-theorem dedupSorted_subset : ∀ (l : List K) (x : K), x ∈ dedupSorted l → x ∈ l
-  | [], x, h => by simp [dedupSorted] at h
-  | [a], x, h => by simpa [dedupSorted] using h
-  | a :: b :: rest, x, h => by
-    simp only [dedupSorted] at h
-    split at h
-    · exact List.mem_cons_of_mem _ (dedupSorted_subset (b :: rest) x h)
-    · rcases List.mem_cons.mp h with h | h
-      · rw [h]; exact List.mem_cons_self
-      · exact List.mem_cons_of_mem _ (dedupSorted_subset (b :: rest) x h)
-
-theorem dedupSorted_ne_nil : ∀ (l : List K), l ≠ [] → dedupSorted l ≠ []
-  | [], h => absurd rfl h
-  | [a], _ => by simp [dedupSorted]
-  | a :: b :: rest, _ => by
-    simp only [dedupSorted]
-    split
-    · exact dedupSorted_ne_nil (b :: rest) (by simp)
-    · simp
-
-theorem unique_subset (l : List K) : ∀ x ∈ unique l, x ∈ l := fun x hx =>
-  List.mem_mergeSort.mp (dedupSorted_subset _ x hx)
-
-theorem unique_ne_nil (l : List K) (h : l ≠ []) : unique l ≠ [] := by
-  apply dedupSorted_ne_nil
-  obtain ⟨a, ha⟩ := List.exists_mem_of_ne_nil l h
-  exact List.ne_nil_of_mem (List.mem_mergeSort.mpr ha)
-
-/-- **interpolation of a constant is the constant** (`numpy.interp` with all `fp` equal). -/
-theorem interp_const (c x : K) : ∀ (pts : List (K × K)), pts ≠ [] → (∀ p ∈ pts, p.2 = c) → interp pts x = c
-  | [], h, _ => absurd rfl h
-  | [(x0, f0)], _, h => by simp only [interp]; exact h (x0, f0) List.mem_cons_self
-  | (x0, f0) :: (x1, f1) :: rest, _, h => by
-    have h0 : f0 = c := h (x0, f0) List.mem_cons_self
-    have h1 : f1 = c := h (x1, f1) (List.mem_cons_of_mem _ List.mem_cons_self)
-    simp only [interp]
-    split
-    · split
-      · exact h0
-      · rw [h0, h1]; simp
-    · exact interp_const c x ((x1, f1) :: rest) (by simp) (fun p hp => h p (List.mem_cons_of_mem _ hp))
-
-theorem interpV_const (xs : List K) (hne : xs ≠ []) (u : V3 K) (x : K) :
-    interpV xs (xs.map fun _ => u) x = u := by
-  have key : ∀ c : K, interp (xs.zip (xs.map fun _ => c)) x = c := by
-    intro c
-    apply interp_const
-    · obtain ⟨a, l, rfl⟩ := List.exists_cons_of_ne_nil hne
-      simp
-    · intro p hp
-      have := (List.of_mem_zip hp).2
-      simp only [List.mem_map] at this
-      obtain ⟨_, _, h⟩ := this
-      exact h.symm
-  unfold interpV
-  simp only [List.map_map, Function.comp_def]
-  ext <;> simp only [key]
-
-theorem sumV_fold_const (u : V3 K) : ∀ (l : List (V3 K)) (acc : V3 K), (∀ v ∈ l, v = u) →
-    l.foldl (· + ·) acc = acc + V3.smul ((l.length : Nat) : K) u
-  | [], acc, _ => by ext <;> simp
-  | v :: l, acc, h => by
-    simp only [List.foldl_cons, List.length_cons]
-    rw [sumV_fold_const u l _ (fun w hw => h w (List.mem_cons_of_mem _ hw)), h v List.mem_cons_self]
-    ext <;> simp only [add_x, add_y, add_z, smul_x, smul_y, smul_z, Nat.cast_add, Nat.cast_one] <;> ring
-
-/-- the mean of a non-empty list of equal vectors is that vector. -/
-theorem meanV_const (u : V3 K) (l : List (V3 K)) (hne : l ≠ []) (h : ∀ v ∈ l, v = u) : meanV l = u := by
-  have hn : ((l.length : Nat) : K) ≠ 0 := by
-    have : l.length ≠ 0 := by simpa using hne
-    exact_mod_cast this
-  unfold meanV sumV
-  rw [sumV_fold_const u l zero3 h]
-  ext <;> simp only [add_x, add_y, add_z, smul_x, smul_y, smul_z, zero3_x, zero3_y, zero3_z, zero_add] <;> field_simp
-
-theorem planeMeans_const (atol rtol : K) (ha : 0 ≤ atol) (hr : 0 ≤ rtol) (plane : List (K × V3 K)) (u : V3 K)
-    (hu : ∀ a ∈ plane, a.2 = u) (ux : List K) (hux : ∀ ix ∈ ux, ix ∈ plane.map (·.1)) :
-    planeMeans atol rtol plane ux = ux.map fun _ => u := by
-  unfold planeMeans
-  apply List.map_congr_left
-  intro ix hix
-  apply meanV_const
-  · obtain ⟨a, ha', hax⟩ := List.mem_map.mp (hux ix hix)
-    apply List.ne_nil_of_mem (a := a.2)
-    apply List.mem_map.mpr
-    refine ⟨a, List.mem_filter.mpr ⟨ha', ?_⟩, rfl⟩
-    simp only [hax]
-    exact isclose_self atol rtol ix ha hr
-  · intro v hv
-    obtain ⟨a, ha', rfl⟩ := List.mem_map.mp hv
-    exact hu a (List.mem_filter.mp ha').1
-
 /-- **disregistry_rigid.**  If every atom of the plane just above the slip plane carries the displacement `uA` and
     every atom of the plane just below carries `uB` (both planes non-empty), then at every coordinate the
     disregistry is `uA - uB`: the means over columns of a constant are the constant, and so is their interpolation. -/
@@ -330,35 +189,6 @@ theorem disregistry_rigid (atol rtol : K) (ha : 0 ≤ atol) (hr : 0 ≤ rtol) (a
   obtain ⟨x, _, rfl⟩ := he
   simp only [plane abovey uA hA hAne, plane belowy uB hB hBne]
 
-theorem fold_sel_mem (f : K → K → K) (hf : ∀ m x, f m x = m ∨ f m x = x) :
-    ∀ (l : List K) (a : K), l.foldl f a ∈ a :: l
-  | [], a => by simp
-  | x :: l, a => by
-    simp only [List.foldl_cons]
-    have := fold_sel_mem f hf l (f a x)
-    rcases List.mem_cons.mp this with h | h
-    · rw [h]
-      rcases hf a x with h' | h' <;> rw [h'] <;> simp
-    · exact List.mem_cons_of_mem _ (List.mem_cons_of_mem _ h)
-
-theorem minL_mem (l : List K) (m : K) (h : minL l = some m) : m ∈ l := by
-  cases l with
-  | nil => simp [minL] at h
-  | cons a l =>
-    simp only [minL, Option.some.injEq] at h
-    rw [← h]
-    apply fold_sel_mem
-    intro m x; by_cases hx : x < m <;> simp [hx]
-
-theorem maxL_mem (l : List K) (m : K) (h : maxL l = some m) : m ∈ l := by
-  cases l with
-  | nil => simp [maxL] at h
-  | cons a l =>
-    simp only [maxL, Option.some.injEq] at h
-    rw [← h]
-    apply fold_sel_mem
-    intro m x; by_cases hx : m < x <;> simp [hx]
-
 /-- the same for the whole function `disregistry` (plane selection included): if it returns a profile and every atom
     lying (within `isclose`) in an atomic plane above the slip plane carries `uA`, every one in a plane below carries
     `uB`, the disregistry is `uA - uB` at every coordinate — the imposed slip. -/
@@ -388,5 +218,361 @@ theorem disregistry_rigid_full (atol rtol : K) (ha : 0 ≤ atol) (hr : 0 ≤ rto
       · exact ⟨a1, ha1, by rw [e1]; exact isclose_self atol rtol abovey ha hr⟩
       · exact ⟨a2, ha2, by rw [e2]; exact isclose_self atol rtol belowy ha hr⟩
   · exact absurd hres (by simp)
+
+/-! ### homogeneous deformation: the lattice-correspondence tensor is the inverse transpose of `F` -/
+
+/-- **G_homogeneous.**  If every matched pair satisfies `q = F p` (`F` invertible) and the matched `q` rows have full
+    column rank (`det QᵀQ ≠ 0`), the least-squares solution of `Q G = P` is `F⁻ᵀ`: rows obey `p = q F⁻ᵀ`, the
+    convention of `Strain.pyx` (`lstsq(Q, P)`). -/
+theorem G_homogeneous (F : M3 K) (hF : M3.det F ≠ 0) (pairs : List (V3 K × V3 K))
+    (hq : ∀ e ∈ pairs, e.2 = M3.mulVec F e.1) (hrank : M3.det (qtq pairs) ≠ 0) :
+    solveNormal pairs = M3.inv F.transpose := by
+  have hFt : M3.det F.transpose ≠ 0 := by rw [det_transpose]; exact hF
+  have hp : ∀ e ∈ pairs, e.1 = M3.vecMul e.2 (M3.inv F.transpose) := by
+    intro e he
+    rw [hq e he, mulVec_eq_vecMul_transpose, vecMul_mul, mul_inv_cancel3 _ hFt, vecMul_one]
+  unfold solveNormal
+  rw [qtp_of_linear _ pairs hp, ← mul_assoc3, inv_mul_cancel3 _ hrank, one_mul3]
+
+/-- more generally: whenever some `G` maps every matched `q` row onto its `p` row, `lstsq` (normal equations, full
+    rank) returns that `G`. -/
+theorem G_exact_fit (G : M3 K) (pairs : List (V3 K × V3 K))
+    (hp : ∀ e ∈ pairs, e.1 = M3.vecMul e.2 G) (hrank : M3.det (qtq pairs) ≠ 0) :
+    solveNormal pairs = G := by
+  unfold solveNormal
+  rw [qtp_of_linear _ pairs hp, ← mul_assoc3, inv_mul_cancel3 _ hrank, one_mul3]
+
+/-- for a pure rotation (`F Fᵀ = I`) the inverse transpose is `F` itself: `G = F`. -/
+theorem invT_of_rotation (F : M3 K) (hR : M3.mul F.transpose F = M3.one) (hF : M3.det F ≠ 0) :
+    M3.inv F.transpose = F := by
+  have hFt : M3.det F.transpose ≠ 0 := by rw [det_transpose]; exact hF
+  exact (solve_unique F.transpose F M3.one hFt hR).trans (by
+    ext <;> simp [M3.mul, M3.vecMul, M3.one]) |>.symm
+
+/-! ### the pairing loop of `match_pq` under its hypothesis
+  (`IsBest mag cosMax ps q k`: `ps[k]` has a cosine with `q` above `cos θ_max`, strictly above that of every earlier
+  `p`, not below that of any later one — defined in `Proofs/C17_Lemmas.lean` with `bestP_of_isBest`) -/
+
+/-- **matchPQ_pairing_partial.**  Hypothesis (not derived from the smallness of the deformation — see PARTIAL): the
+    `j`-th current neighbour vector has the best match `ps[ks[j]]` within `θ_max` and distinct `q` have distinct
+    matches.  Then `qp_pairs = ks`, nothing is discarded, and the reduced matrices hold the rows
+    `(P[j], Q[j]) = (ps[ks[j]], qs[j])` in the order of `q`. -/
+theorem matchPQ_pairing_partial (mag : V3 K → K) (cosMax big : K) (ps qs : List (V3 K)) (ks : List Nat)
+    (hlen : qs.length = ks.length)
+    (hbest : ∀ e ∈ qs.zip ks, IsBest mag cosMax ps e.1 e.2)
+    (hnd : ks.Nodup) :
+    qpPairs mag cosMax big ps qs = (qs.zip ks).map (fun e => (e.1, some e.2)) ∧
+    matchPQ mag cosMax big ps qs = (qs.zip ks).filterMap (fun e => (ps[e.2]?).map fun p => (p, e.1)) ∧
+    (matchPQ mag cosMax big ps qs).map (·.2) = qs := by
+  have h1 : qpPairs mag cosMax big ps qs = (qs.zip ks).map (fun e => (e.1, some e.2)) := by
+    unfold qpPairs
+    rw [qpPairs_fold mag cosMax _ ps qs ks [] hlen hbest hnd (by simp)]
+    simp
+  have h2 : matchPQ mag cosMax big ps qs = (qs.zip ks).filterMap (fun e => (ps[e.2]?).map fun p => (p, e.1)) := by
+    unfold matchPQ
+    rw [h1, List.filterMap_map]
+    rfl
+  refine ⟨h1, h2, ?_⟩
+  rw [h2]
+  have : ∀ (l : List (V3 K × Nat)), (∀ e ∈ l, ∃ p, ps[e.2]? = some p) →
+      (l.filterMap (fun e => (ps[e.2]?).map fun p => (p, e.1))).map (·.2) = l.map (·.1) := by
+    intro l
+    induction l with
+    | nil => intro _; rfl
+    | cons e l ih =>
+      intro h
+      obtain ⟨p, hp⟩ := h e List.mem_cons_self
+      rw [List.filterMap_cons_some (b := (p, e.1)) (by simp [hp])]
+      simp only [List.map_cons]
+      rw [ih (fun e' he' => h e' (List.mem_cons_of_mem _ he'))]
+  rw [this _ (fun e he => (isBest_get mag cosMax ps e.1 e.2 (hbest e he)).imp fun p hp => hp.1)]
+  exact List.map_fst_zip (by omega)
+
+/-- **solveG_homogeneous.**  The whole per-atom computation `match_pq` + `lstsq`: reference vectors `ps`, current
+    vectors `qs` with `qs[j] = F ps[ks[j]]`, pairing hypothesis of `matchPQ_pairing_partial`, at least one neighbour
+    and full rank of the `q` rows ⇒ `G = F⁻ᵀ`. -/
+theorem solveG_homogeneous (mag : V3 K → K) (cosMax big : K) (ps qs : List (V3 K)) (ks : List Nat)
+    (F : M3 K) (hF : M3.det F ≠ 0)
+    (hlen : qs.length = ks.length)
+    (hbest : ∀ e ∈ qs.zip ks, IsBest mag cosMax ps e.1 e.2)
+    (hnd : ks.Nodup)
+    (hq : ∀ e ∈ qs.zip ks, ∀ p, ps[e.2]? = some p → e.1 = M3.mulVec F p)
+    (hne : qs ≠ [])
+    (hrank : M3.det (qtqV qs) ≠ 0) :
+    solveG mag cosMax big ps qs = M3.inv F.transpose := by
+  obtain ⟨_, h2, h3⟩ := matchPQ_pairing_partial mag cosMax big ps qs ks hlen hbest hnd
+  have hne' : (matchPQ mag cosMax big ps qs).isEmpty = false := by
+    cases hm : matchPQ mag cosMax big ps qs with
+    | nil => rw [hm] at h3; exact absurd h3.symm hne
+    | cons a l => rfl
+  unfold solveG
+  simp only [hne', Bool.false_eq_true, if_false]
+  apply G_homogeneous F hF
+  · intro e he
+    rw [h2] at he
+    obtain ⟨e', he', hm⟩ := List.mem_filterMap.mp he
+    cases hp : ps[e'.2]? with
+    | none => simp [hp] at hm
+    | some p =>
+      simp only [hp, Option.map_some, Option.some.injEq] at hm
+      rw [← hm]
+      exact hq e' he' p hp
+  · rw [qtq_eq_qtqV, h3]; exact hrank
+
+/-- the same for `Strain(system, neighbors, basesystem, baseneighbors).G[i]`. -/
+theorem strainG_homogeneous (mag : V3 K → K) (cosMax big : K) (c0 c1 : Cell K) (pos0 pos1 : Nat → V3 K)
+    (nbrs0 nbrs1 : List Nat) (i : Nat) (ks : List Nat) (F : M3 K) (hF : M3.det F ≠ 0)
+    (hlen : nbrs1.length = ks.length)
+    (hbest : ∀ e ∈ (nbrVectors c1 pos1 nbrs1 i).zip ks, IsBest mag cosMax (nbrVectors c0 pos0 nbrs0 i) e.1 e.2)
+    (hnd : ks.Nodup)
+    (hq : ∀ e ∈ (nbrVectors c1 pos1 nbrs1 i).zip ks, ∀ p, (nbrVectors c0 pos0 nbrs0 i)[e.2]? = some p →
+      e.1 = M3.mulVec F p)
+    (hne : nbrs1 ≠ [])
+    (hrank : M3.det (qtqV (nbrVectors c1 pos1 nbrs1 i)) ≠ 0) :
+    strainG mag cosMax big c0 c1 pos0 pos1 nbrs0 nbrs1 i = M3.inv F.transpose := by
+  unfold strainG
+  apply solveG_homogeneous mag cosMax big _ _ ks F hF _ hbest hnd hq _ hrank
+  · simpa [nbrVectors] using hlen
+  · simpa [nbrVectors] using hne
+
+/-- ... hence strain, rotation and the invariants are those of `F⁻ᵀ` at every such atom. -/
+theorem measures_homogeneous (G F : M3 K) (h : G = M3.inv F.transpose) :
+    strain G = strain (M3.inv F.transpose) ∧ rotation G = rotation (M3.inv F.transpose) ∧
+    invariant1 (strain G) = invariant1 (strain (M3.inv F.transpose)) ∧
+    invariant2 (strain G) = invariant2 (strain (M3.inv F.transpose)) ∧
+    invariant3 (strain G) = invariant3 (strain (M3.inv F.transpose)) ∧
+    angularVelocitySq (rotation G) = angularVelocitySq (rotation (M3.inv F.transpose)) := by
+  subst h; exact ⟨rfl, rfl, rfl, rfl, rfl, rfl⟩
+
+/-! ### what the strain measures are -/
+
+/-- the strain is the symmetric part ... -/
+theorem strain_symm (G : M3 K) : (strain G).transpose = strain G := by
+  ext <;> simp [strain, M3.transpose, M3.row, V3.get, M3.one, half] <;> ring
+
+/-- ... the rotation the antisymmetric part ... -/
+theorem rotation_antisymm (G : M3 K) : (rotation G).transpose = subM zeroM (rotation G) := by
+  ext <;> simp [rotation, M3.transpose, M3.row, V3.get, M3.one, half, subM, zeroM, zero3] <;> ring
+
+/-- ... of `I - G`. -/
+theorem strain_add_rotation (G : M3 K) : addM (strain G) (rotation G) = subM M3.one G := by
+  ext <;> simp [strain, rotation, addM, subM, M3.row, V3.get, M3.one, half] <;> ring
+
+/-- no deformation (`F = I`, `G = I`): zero strain and rotation. -/
+theorem strain_one : strain (M3.one : M3 K) = zeroM ∧ rotation (M3.one : M3 K) = zeroM := by
+  constructor <;> ext <;> simp [strain, rotation, M3.row, V3.get, M3.one, half, zeroM, zero3]
+
+/-- the three invariants are the coefficients of the characteristic polynomial `det (ε - λ I)`. -/
+theorem invariants_charpoly (s : M3 K) (l : K) :
+    M3.det (subM s ⟨⟨l, 0, 0⟩, ⟨0, l, 0⟩, ⟨0, 0, l⟩⟩)
+      = -l ^ 3 + invariant1 s * l ^ 2 - invariant2 s * l + invariant3 s := by
+  simp only [M3.det, V3.dot, V3.cross, subM, sub_x, sub_y, sub_z, invariant1, invariant2, invariant3]; ring
+
+/-! ### constant `G` ⇒ zero Nye tensor -/
+
+/-- **nye_zero.**  If `G` takes the same value on atom `i` and on all its neighbours (homogeneous deformation), every
+    right-hand side `G[j] - G[i]` of the gradient fit vanishes and so does the Nye tensor — whatever the neighbour
+    vectors are. -/
+theorem nye_zero (c : Cell K) (pos : Nat → V3 K) (G : Nat → M3 K) (nbrs : List Nat) (i : Nat)
+    (hG : ∀ j ∈ nbrs, G j = G i) : nye c pos G nbrs i = zeroM := by
+  have hz : ∀ (f : M3 K → V3 K), f zeroM = zero3 →
+      ∀ e ∈ ((nbrs.map fun j => subM (G j) (G i)).map f).zip (nbrVectors c pos nbrs i), e.1 = zero3 := by
+    intro f hf e he
+    have := (List.of_mem_zip he).1
+    simp only [List.mem_map] at this
+    obtain ⟨m, ⟨j, hj, rfl⟩, h2⟩ := this
+    rw [← h2, hG j hj, subM_self, hf]
+  unfold nye gradG
+  rw [solveNormal_zero _ (hz (·.r0) rfl), solveNormal_zero _ (hz (·.r1) rfl), solveNormal_zero _ (hz (·.r2) rfl)]
+  exact nyeOf_zero
+
+/-! ### joint translation, consistent renumbering -/
+
+/-- **translation_invariant.**  Adding the same vector `t` to every position of both systems (cell vectors
+    unchanged; the box origin never enters) changes none of: displacement, slip vector, differential displacement,
+    the neighbour vectors `p`/`q` and hence `G`, the Nye tensor. -/
+theorem translation_invariant (c0 c1 : Cell K) (pos0 pos1 : Nat → V3 K) (t : V3 K) (nbrs nbrs1 : List Nat) (i j : Nat)
+    (mag : V3 K → K) (cosMax big : K) :
+    displacement c1 (fun k => pos0 k + t) (fun k => pos1 k + t) i = displacement c1 pos0 pos1 i ∧
+    slipVector c0 (fun k => pos0 k + t) (fun k => pos1 k + t) nbrs i = slipVector c0 pos0 pos1 nbrs i ∧
+    ddvector c0 c1 (fun k => pos0 k + t) (fun k => pos1 k + t) i j = ddvector c0 c1 pos0 pos1 i j ∧
+    strainG mag cosMax big c0 c1 (fun k => pos0 k + t) (fun k => pos1 k + t) nbrs nbrs1 i
+      = strainG mag cosMax big c0 c1 pos0 pos1 nbrs nbrs1 i ∧
+    (∀ G : Nat → M3 K, nye c1 (fun k => pos1 k + t) G nbrs1 i = nye c1 pos1 G nbrs1 i) := by
+  have hn : ∀ (c : Cell K) (pos : Nat → V3 K) (l : List Nat),
+      nbrVectors c (fun k => pos k + t) l i = nbrVectors c pos l i := by
+    intro c pos l; simp only [nbrVectors, dv_translate]
+  refine ⟨?_, ?_, ?_, ?_, ?_⟩
+  · simp only [displacement, dv_translate]
+  · unfold slipVector
+    apply foldl_congr_mem
+    intro b a _
+    simp only [slipStep, dv_translate]
+  · simp only [ddvector, dv_translate]
+  · simp only [strainG, hn]
+  · intro G; simp only [nye, hn]
+
+/-- **permutation_equivariant.**  Renumber the atoms of both systems by `σ` (positions, neighbour lists and the
+    per-atom tensor field carried along): every per-atom result is carried along with its atom. -/
+theorem permutation_equivariant (c0 c1 : Cell K) (pos0 pos1 pos0' pos1' : Nat → V3 K) (σ : Nat → Nat)
+    (h0 : ∀ k, pos0' (σ k) = pos0 k) (h1 : ∀ k, pos1' (σ k) = pos1 k)
+    (nbrs nbrs1 : List Nat) (i j : Nat) (mag : V3 K → K) (cosMax big : K) :
+    displacement c1 pos0' pos1' (σ i) = displacement c1 pos0 pos1 i ∧
+    slipVector c0 pos0' pos1' (nbrs.map σ) (σ i) = slipVector c0 pos0 pos1 nbrs i ∧
+    ddvector c0 c1 pos0' pos1' (σ i) (σ j) = ddvector c0 c1 pos0 pos1 i j ∧
+    strainG mag cosMax big c0 c1 pos0' pos1' (nbrs.map σ) (nbrs1.map σ) (σ i)
+      = strainG mag cosMax big c0 c1 pos0 pos1 nbrs nbrs1 i ∧
+    (∀ G G' : Nat → M3 K, (∀ k, G' (σ k) = G k) →
+      nye c1 pos1' G' (nbrs1.map σ) (σ i) = nye c1 pos1 G nbrs1 i) := by
+  have hn : ∀ (c : Cell K) (pos pos' : Nat → V3 K), (∀ k, pos' (σ k) = pos k) → ∀ (l : List Nat),
+      nbrVectors c pos' (l.map σ) (σ i) = nbrVectors c pos l i := by
+    intro c pos pos' h l; simp only [nbrVectors, List.map_map, Function.comp_def, h]
+  refine ⟨?_, ?_, ?_, ?_, ?_⟩
+  · simp only [displacement, h0, h1]
+  · unfold slipVector
+    rw [foldl_map']
+    apply foldl_congr_mem
+    intro b a _
+    simp only [slipStep, h0, h1]
+  · simp only [ddvector, h0, h1]
+  · simp only [strainG, hn c0 pos0 pos0' h0, hn c1 pos1 pos1' h1]
+  · intro G G' hG
+    simp only [nye, hn c1 pos1 pos1' h1, List.map_map, Function.comp_def, hG]
+
+/-! ### non-vacuity: concrete instances (over ℚ) satisfying the hypotheses, with the conclusions evaluated -/
+
+def exV : M3 ℚ := ⟨⟨4, 0, 0⟩, ⟨0, 4, 0⟩, ⟨0, 0, 4⟩⟩
+def exCell : Cell ℚ := ⟨exV, true, true, true⟩
+
+/-- hypotheses of `image_stable` / `dd_is_difference` (a pair through the periodic boundary, `s = (-1,0,0)`) and the
+    conclusion evaluated. -/
+example :
+    let p0 : V3 ℚ := ⟨0, 0, 0⟩; let p1 : V3 ℚ := ⟨7/2, 0, 0⟩
+    let u0 : V3 ℚ := ⟨0, 1/8, 0⟩; let u1 : V3 ℚ := ⟨1/4, 0, -1/8⟩
+    let s : Shift := (-1, 0, 0)
+    s ∈ cands true true true ∧
+    (∀ t ∈ cands true true true, t = s ∨
+      2 * |V3.dot (u1 - u0) (shiftBy exV (p1 - p0) t - shiftBy exV (p1 - p0) s)|
+        < V3.normSq (shiftBy exV (p1 - p0) t) - V3.normSq (shiftBy exV (p1 - p0) s)) ∧
+    dvect exV true true true p0 p1 = ⟨-1/2, 0, 0⟩ ∧
+    dvect exV true true true (p0 + u0) (p1 + u1) = ⟨-1/4, -1/8, -1/8⟩ := by
+  decide +kernel
+
+/-- hypotheses of `image_stable_margin` with `δ = 8`. -/
+example :
+    let p0 : V3 ℚ := ⟨0, 0, 0⟩; let p1 : V3 ℚ := ⟨7/2, 0, 0⟩
+    let u0 : V3 ℚ := ⟨0, 1/8, 0⟩; let u1 : V3 ℚ := ⟨1/4, 0, -1/8⟩
+    let s : Shift := (-1, 0, 0)
+    ∀ t ∈ cands true true true, t = s ∨
+      ((8 : ℚ) ≤ V3.normSq (shiftBy exV (p1 - p0) t) - V3.normSq (shiftBy exV (p1 - p0) s) ∧
+       4 * V3.normSq (u1 - u0) * V3.normSq (shiftBy exV (p1 - p0) t - shiftBy exV (p1 - p0) s) < (8 : ℚ) ^ 2) := by
+  decide +kernel
+
+/-- hypotheses of `displacement_is_imposed`: the atom is moved by `u` and then by a box vector. -/
+example :
+    let pos0 : Nat → V3 ℚ := fun _ => ⟨1/2, 1, 1⟩
+    let pos1 : Nat → V3 ℚ := fun _ => ⟨1/2 - 1 + 4, 1 + 1/4, 1⟩
+    let u : V3 ℚ := ⟨-1, 1/4, 0⟩
+    let s : Shift := (-1, 0, 0)
+    s ∈ cands exCell.px exCell.py exCell.pz ∧ shiftBy exCell.vects (pos1 0 - pos0 0) s = u ∧
+    (∀ t ∈ cands exCell.px exCell.py exCell.pz, shiftBy exCell.vects (pos1 0 - pos0 0) t = u ∨
+      V3.normSq u < V3.normSq (shiftBy exCell.vects (pos1 0 - pos0 0) t)) ∧
+    displacement exCell pos0 pos1 0 = u := by
+  decide +kernel
+
+/-- a chain of four atoms along x in the 4-periodic cell, slip plane between atoms 1 and 2 (and, through the
+    boundary, between 3 and 0); the upper half `{2,3}` is displaced by `uA`. -/
+def exPos0 : Nat → V3 ℚ
+  | 0 => ⟨1/2, 1, 1⟩ | 1 => ⟨3/2, 1, 1⟩ | 2 => ⟨5/2, 1, 1⟩ | _ => ⟨7/2, 1, 1⟩
+def exSide : Nat → Bool := fun k => decide (2 ≤ k)
+def exUA : V3 ℚ := ⟨0, 1/4, -1/8⟩
+def exUB : V3 ℚ := ⟨0, 0, 1/8⟩
+def exSh : Nat → Shift := fun j => if j = 3 then (-1, 0, 0) else (0, 0, 0)
+
+/-- hypotheses of `slip_rigid_of_stable` (hence of `slip_rigid`) for atoms 0 (neighbour 3 across, through the
+    boundary) and 1 (neighbour 2 across), of `slip_zero_away` for an atom whose listed neighbours are on its side;
+    the conclusions evaluated. -/
+example :
+    (∀ i ∈ [0, 1], ∀ j ∈ (if i = 0 then [3, 1] else [0, 2]), exSh j ∈ cands true true true ∧
+      ∀ t ∈ cands true true true, t = exSh j ∨
+        2 * |V3.dot (twoValued exSide exUA exUB j - twoValued exSide exUA exUB i)
+              (shiftBy exV (exPos0 j - exPos0 i) t - shiftBy exV (exPos0 j - exPos0 i) (exSh j))|
+          < V3.normSq (shiftBy exV (exPos0 j - exPos0 i) t) - V3.normSq (shiftBy exV (exPos0 j - exPos0 i) (exSh j))) ∧
+    slipVector exCell exPos0 (fun k => exPos0 k + twoValued exSide exUA exUB k) [3, 1] 0 = ⟨0, -1/4, 1/4⟩ ∧
+    slipVector exCell exPos0 (fun k => exPos0 k + twoValued exSide exUA exUB k) [0, 2] 1 = ⟨0, -1/4, 1/4⟩ ∧
+    slipVector exCell exPos0 (fun k => exPos0 k + twoValued exSide exUA exUB k) [1, 3] 2 = ⟨0, 1/4, -1/4⟩ ∧
+    ([0].countP (fun j => exSide j != exSide 1) = 0 ∧
+      slipVector exCell exPos0 (fun k => exPos0 k + twoValued exSide exUA exUB k) [0] 1 = zero3) := by
+  decide +kernel
+
+/-- hypotheses of `disregistry_rigid_full`: two planes of two columns; the profile exists and is the slip. -/
+example :
+    let uA : V3 ℚ := ⟨1/4, 0, 1/8⟩; let uB : V3 ℚ := ⟨0, 0, -1/8⟩
+    let atoms : List (ℚ × ℚ × V3 ℚ) := [(0, 0, uB), (2, 0, uB), (1, 1, uA), (3, 1, uA), (1, 2, uA), (0, -1, uB)]
+    disregistry (1/100000000) (1/100000) atoms (1/2)
+      = some [(0, uA - uB), (1, uA - uB), (2, uA - uB), (3, uA - uB)] ∧
+    (∀ a ∈ atoms, (1/2 < a.2.1 → a.2.2 = uA) ∧ (a.2.1 < 1/2 → a.2.2 = uB)) := by
+  decide +kernel
+
+/-- hypotheses of `G_homogeneous`: a simple shear plus stretch, four matched neighbour vectors. -/
+example :
+    let F : M3 ℚ := ⟨⟨1, 1/10, 0⟩, ⟨0, 21/20, 0⟩, ⟨1/50, 0, 1⟩⟩
+    let ps : List (V3 ℚ) := [⟨1, 0, 0⟩, ⟨0, 1, 0⟩, ⟨0, 0, 1⟩, ⟨1, 1, 0⟩]
+    let pairs := ps.map fun p => (p, M3.mulVec F p)
+    M3.det F ≠ 0 ∧ M3.det (qtq pairs) ≠ 0 ∧ (∀ e ∈ pairs, e.2 = M3.mulVec F e.1) ∧
+    solveNormal pairs = M3.inv F.transpose ∧ M3.inv F.transpose ≠ M3.one ∧
+    M3.mul F.transpose (solveNormal pairs) = M3.one := by
+  decide +kernel
+
+/-- hypothesis of `invT_of_rotation`: the 3-4-5 rotation about z. -/
+example :
+    let R : M3 ℚ := ⟨⟨3/5, -4/5, 0⟩, ⟨4/5, 3/5, 0⟩, ⟨0, 0, 1⟩⟩
+    M3.mul R.transpose R = M3.one ∧ M3.det R ≠ 0 ∧ M3.inv R.transpose = R := by
+  decide +kernel
+
+/-- reference neighbour vectors (all of length 5), the 7-24-25 rotation about z (16.3° < θ_max = 27°), and the rotated
+    vectors listed in another order. -/
+def exPs : List (V3 ℚ) := [⟨3, 4, 0⟩, ⟨-4, 3, 0⟩, ⟨0, 0, 5⟩]
+def exR : M3 ℚ := ⟨⟨24/25, -7/25, 0⟩, ⟨7/25, 24/25, 0⟩, ⟨0, 0, 1⟩⟩
+def exQs : List (V3 ℚ) := [M3.mulVec exR ⟨0, 0, 5⟩, M3.mulVec exR ⟨3, 4, 0⟩, M3.mulVec exR ⟨-4, 3, 0⟩]
+def exKs : List Nat := [2, 0, 1]
+def exMag : V3 ℚ → ℚ := fun _ => 5
+
+/-- hypotheses of `matchPQ_pairing_partial` and `solveG_homogeneous`, and their conclusions evaluated. -/
+example :
+    (∀ e ∈ exQs.zip exKs, IsBest exMag (891/1000) exPs e.1 e.2) ∧ exKs.Nodup ∧ exQs.length = exKs.length ∧
+    (∀ v ∈ exPs ++ exQs, exMag v * exMag v = V3.normSq v) ∧
+    M3.det exR ≠ 0 ∧ exQs ≠ [] ∧ M3.det (qtqV exQs) ≠ 0 ∧
+    (∀ e ∈ exQs.zip exKs, ∀ p, exPs[e.2]? = some p → e.1 = M3.mulVec exR p) ∧
+    (qpPairs exMag (891/1000) 10000000000000000 exPs exQs).map (·.2) = [some 2, some 0, some 1] ∧
+    solveG exMag (891/1000) 10000000000000000 exPs exQs = M3.inv exR.transpose ∧
+    solveG exMag (891/1000) 10000000000000000 exPs exQs = exR := by
+  refine ⟨?_, by decide +kernel, by decide +kernel, by decide +kernel, by decide +kernel, by decide +kernel,
+    by decide +kernel, by decide +kernel, by decide +kernel, by decide +kernel, by decide +kernel⟩
+  intro e he
+  have : e = (M3.mulVec exR ⟨0, 0, 5⟩, 2) ∨ e = (M3.mulVec exR ⟨3, 4, 0⟩, 0) ∨ e = (M3.mulVec exR ⟨-4, 3, 0⟩, 1) := by
+    simpa [exQs, exKs] using he
+  rcases this with rfl | rfl | rfl
+  · exact ⟨[⟨3, 4, 0⟩, ⟨-4, 3, 0⟩], ⟨0, 0, 5⟩, [], rfl, rfl, by decide +kernel, by decide +kernel, by decide +kernel⟩
+  · exact ⟨[], ⟨3, 4, 0⟩, [⟨-4, 3, 0⟩, ⟨0, 0, 5⟩], rfl, rfl, by decide +kernel, by decide +kernel, by decide +kernel⟩
+  · exact ⟨[⟨3, 4, 0⟩], ⟨-4, 3, 0⟩, [⟨0, 0, 5⟩], rfl, rfl, by decide +kernel, by decide +kernel, by decide +kernel⟩
+
+/-- the pairing loop where it decides something (outside the hypothesis of `matchPQ_pairing_partial`): two current
+    vectors compete for the same reference vector; the one whose length is farther from `r1` is dropped, as is a
+    vector outside `θ_max`. -/
+example :
+    (qpPairs (fun v => if v.x = 10 ∨ v.y = 10 then 10 else 5) (891/1000) 10000000000000000
+      [⟨5, 0, 0⟩, ⟨0, 5, 0⟩] [⟨10, 0, 0⟩, ⟨5, 0, 0⟩, ⟨3, 4, 0⟩, ⟨0, 10, 0⟩]).map (·.2)
+      = [none, some 0, none, some 1] := by
+  decide +kernel
+
+/-- hypothesis of `nye_zero` / the general case: a constant field gives zero, a varying one does not. -/
+example :
+    let pos : Nat → V3 ℚ := fun k => if k = 0 then ⟨0, 0, 0⟩ else if k = 1 then ⟨1, 0, 0⟩ else if k = 2 then ⟨0, 1, 0⟩
+      else ⟨0, 0, 1⟩
+    let c : Cell ℚ := ⟨⟨⟨8, 0, 0⟩, ⟨0, 8, 0⟩, ⟨0, 0, 8⟩⟩, true, true, true⟩
+    nye c pos (fun _ => exR) [1, 2, 3] 0 = zeroM ∧
+    nye c pos (fun k => if k = 1 then exR else M3.one) [1, 2, 3] 0 ≠ zeroM := by
+  decide +kernel
 
 end Atomman.C17
